@@ -351,7 +351,14 @@ impl<'grammar> TypeInferencer<'grammar> {
 
             AlternativeAction::User(&ActionKind::Lookahead)
             | AlternativeAction::User(&ActionKind::Lookbehind) => {
-                Ok(self.types.opt_terminal_loc_type().unwrap().clone())
+                match self.types.opt_terminal_loc_type() {
+                    Some(ty) => Ok(ty.clone()),
+                    None => return_err!(
+                        alt.span,
+                        "`=>@L` and `=>@R` require you to declare the type of a location; \
+                         add a `type Location = ..` to your `extern` section"
+                    ),
+                }
             }
 
             AlternativeAction::Default(Symbols::Named(ref syms)) => {
